@@ -115,7 +115,7 @@ def sparse_connect(
         for cell_idx in post_syn_neurons
     ]
     global_post_indices = (
-        np.hstack(global_post_indices) if len(global_post_indices) > 1 else []
+        np.hstack(global_post_indices) if len(global_post_indices) > 0 else []
     )
     post_rows = post_cell_view.base.nodes.loc[global_post_indices]
 
